@@ -1,2 +1,176 @@
-(* C08 — placeholder while the correspondence is being built *)
-From SV Require Import Base Json MD5 Canon FS Ws Cache CorrC08.
+(* C08 — the state point cache is transparent, and update_cache makes it exact.
+   Only statements; the model is SV.Cache (written after signac/project.py and job.py), proofs are in
+   SV.C08Proofs.  Every theorem is parametric in the library oracles
+     frepr   : float.__repr__
+     loads_s : bytes.decode() + json.loads(str)      (Project._get_statepoint_from_workspace)
+     loads_b : json.loads(bytes)                     (_StatePointDict.load)
+   which are Section variables of the model, never axioms. *)
+From SV Require Import Base Json MD5 Canon FS Ws Cache CacheLemmas CorrC08 C08Proofs.
+
+(* ---------------------------------------------------------------- cache_sound_inv
+   Inv f s: every entry of the session's _sp_cache and every entry of the persistent cache file
+   satisfies calc_id sp = id.  It holds initially and is preserved by every operation of the model:
+   init, remove, re-key, update_cache (either comparison), session restart, deletion of the cache
+   file, and every observation (find_jobs / open_job(id=..).statepoint()) made through a session. *)
+Theorem C08_cache_sound_initial : forall frepr f,
+  cache_file f = None -> Inv frepr f fresh.
+Proof. intros frepr f H. split; [apply sound_nil|]. intros c Hc. congruence. Qed.
+Print Assumptions C08_cache_sound_initial.
+
+Theorem C08_cache_sound_inv_init : forall frepr loads_b f s sp f' s' r,
+  Inv frepr f s -> op_init frepr loads_b f s sp = (f', s', r) -> Inv frepr f' s'.
+Proof. exact inv_init. Qed.
+Print Assumptions C08_cache_sound_inv_init.
+
+Theorem C08_cache_sound_inv_remove : forall frepr f s sp f' s' r,
+  Inv frepr f s -> op_remove frepr f s sp = (f', s', r) -> Inv frepr f' s'.
+Proof. exact inv_remove. Qed.
+Print Assumptions C08_cache_sound_inv_remove.
+
+Theorem C08_cache_sound_inv_rekey : forall frepr loads_b f s old new f' s' r,
+  Inv frepr f s -> op_rekey frepr loads_b f s old new = (f', s', r) -> Inv frepr f' s'.
+Proof. exact inv_rekey. Qed.
+Print Assumptions C08_cache_sound_inv_rekey.
+
+Theorem C08_cache_sound_inv_update_cache : forall frepr loads_s f s f' s' r,
+  Inv frepr f s -> update_cache frepr loads_s f s = (f', s', r) -> Inv frepr f' s'.
+Proof. intros frepr loads_s. exact (inv_update_cache_gen frepr loads_s F9_FIXED). Qed.
+Print Assumptions C08_cache_sound_inv_update_cache.
+
+Theorem C08_cache_sound_inv_restart : forall frepr f s, Inv frepr f s -> Inv frepr f fresh.
+Proof. exact inv_restart. Qed.
+Print Assumptions C08_cache_sound_inv_restart.
+
+Theorem C08_cache_sound_inv_delete_cache : forall frepr f s f',
+  Inv frepr f s -> unlink f CACHEP = FOk f' -> Inv frepr f' s.
+Proof. exact inv_delcache. Qed.
+Print Assumptions C08_cache_sound_inv_delete_cache.
+
+Theorem C08_cache_sound_inv_observe : forall frepr loads_s loads_b f s ev,
+  Inv frepr f s -> Inv frepr f (fst (observe frepr loads_s loads_b f s ev)).
+Proof. intros. split; [apply observe_sound; auto|exact (proj2 H)]. Qed.
+Print Assumptions C08_cache_sound_inv_observe.
+
+(* ---------------------------------------------------------------- cache_transparent
+   For an uncorrupted workspace (ws_intact), sound caches, and no MD5 collision among the values at
+   hand (coll_free: stated on the finite set of cached values against the workspace values, NOT as a
+   global injectivity assumption), every observation — find_jobs for any per-job evaluator that does not
+   depend on key order, len, ids by iteration, open_job(id=i).statepoint() for every listed i — made
+   through ANY session (fresh or with an arbitrarily stale in-memory cache) on the file system WITH the
+   cache file equals the observation of a fresh session on the file system WITHOUT it (state points up to
+   key order).  The listing always comes from the directory. *)
+Theorem C08_cache_transparent : forall frepr loads_s loads_b f s ev,
+  Inv frepr f s -> ws_intact frepr loads_s loads_b f ->
+  coll_free frepr loads_s f (map snd (s_cache s) ++ file_vals f) ->
+  (forall a b, norm a = norm b -> ev a = ev b) ->
+  obs_equiv (snd (observe frepr loads_s loads_b f s ev))
+            (snd (observe frepr loads_s loads_b (without_cache f) fresh ev)).
+Proof. exact cache_transparent. Qed.
+Print Assumptions C08_cache_transparent.
+
+(* the answers themselves: computed from the directory listing and the workspace files alone *)
+Theorem C08_observations_from_workspace : forall frepr loads_s loads_b f s ev,
+  Agr loads_s f s -> ws_intact frepr loads_s loads_b f -> (forall a b, norm a = norm b -> ev a = ev b) ->
+  let o := snd (observe frepr loads_s loads_b f s ev) in
+  o_find o = Ok (filter (ev_ws loads_s ev f) (listing f)) /\
+  o_len o = N.of_nat (length (listing f)) /\ o_ids o = listing f /\
+  Forall2 (fun p i => fst p = i /\ exists v w, snd p = Ok v /\ wsv loads_s f i = Some w /\ norm v = norm w)
+          (o_open o) (listing f).
+Proof. exact observe_ref. Qed.
+Print Assumptions C08_observations_from_workspace.
+
+(* ---------------------------------------------------------------- update_cache_exact
+   FULL STATEMENT (what the property says): after update_cache() returns, the cache file lists exactly
+   the ids of the workspace, each mapped to its true state point, and an immediate second call
+   returns None:
+     forall f s, Inv f s -> ... -> update_cache f s = (f', s', Ok r) ->
+       exact f' /\ listing f' = listing f /\ exists s'', update_cache f' s' = (f', s'', Ok None).
+   It is FALSE of the present code (defect F9: the id set used in the comparison is taken before the
+   in-memory cache is reconciled with the workspace, Cache.update_cache_gen, flag F9_FIXED = false):
+   C08_update_cache_exact_refuted.  Proved below
+     * for the present code under  f9_state f s = false   (C08_update_cache_exact_partial), where
+       f9_state f s  <->  a cache file exists /\ every id in the session's _sp_cache is in it /\
+                          its id set differs from the directory listing;
+     * for the repaired comparison without side condition (C08_update_cache_exact_when_fixed).
+   WHEN THE fix: COMMIT LANDS: set Cache.F9_FIXED := true, delete C08_update_cache_exact_refuted (it no
+   longer compiles), and replace the _partial theorem by
+     Theorem C08_update_cache_exact : (statement of _when_fixed with update_cache in place of
+     update_cache_gen .. true).  Proof. exact update_cache_exact_when_fixed. Qed. *)
+Theorem C08_update_cache_exact_partial : forall frepr loads_s loads_b f s f' s' r,
+  Inv frepr f s -> NoDup (map fst (s_cache s)) -> file_nodup f -> ws_intact frepr loads_s loads_b f ->
+  coll_free frepr loads_s f (map snd (s_cache s) ++ file_vals f) ->
+  f9_state f s = false ->
+  update_cache frepr loads_s f s = (f', s', Ok r) ->
+  exact loads_s f' /\ listing f' = listing f /\
+  exists s'', update_cache frepr loads_s f' s' = (f', s'', Ok None).
+Proof. exact update_cache_exact_partial. Qed.
+Print Assumptions C08_update_cache_exact_partial.
+
+Theorem C08_update_cache_exact_when_fixed : forall frepr loads_s loads_b f s f' s' r,
+  Inv frepr f s -> NoDup (map fst (s_cache s)) -> file_nodup f -> ws_intact frepr loads_s loads_b f ->
+  coll_free frepr loads_s f (map snd (s_cache s) ++ file_vals f) ->
+  update_cache_gen frepr loads_s true f s = (f', s', Ok r) ->
+  exact loads_s f' /\ listing f' = listing f /\
+  exists s'', update_cache_gen frepr loads_s true f' s' = (f', s'', Ok None).
+Proof. exact update_cache_exact_when_fixed. Qed.
+Print Assumptions C08_update_cache_exact_when_fixed.
+
+(* the witness: init {a:0}; init {a:1}; update_cache; remove {a:0}; NEW SESSION; update_cache() = None
+   while the file still lists the removed id (replayed on the real code by harness/c08.py, DIRECTED[0]) *)
+Theorem C08_update_cache_exact_refuted :
+  exists f, Inv ex_fr f fresh /\ ws_intact ex_fr ex_ls ex_lb f /\ file_nodup f /\
+            (exists s', update_cache ex_fr ex_ls f fresh = (f, s', Ok None)) /\
+            ~ exact ex_ls f.
+Proof. exact update_cache_exact_refuted. Qed.
+Print Assumptions C08_update_cache_exact_refuted.
+
+(* whether the file is rewritten does not depend on the workspace at all in the present code: the
+   characterisation of the defect used by the known-finding classifier *)
+
+(* ---------------------------------------------------------------- licence for the correspondence
+   If the implementation agrees with the model on a recorded history (mismatch_C08 c = false), the
+   soundness clause of the oracle holds on every cache file the implementation produced.  The other
+   two clauses of the oracle (transparency, exactness) are licensed by the theorems above under their
+   stated preconditions (uncorrupted workspace, collision freedom, not an F9 state); they are not
+   lifted to the boolean oracle here. *)
+Theorem C08_model_holds : forall c, mismatch_C08 c = false ->
+  forallb (fun x => match st_obs x with Some o => clause_sound c o | None => true end) (c8_steps c) = true.
+Proof. exact model_holds_sound. Qed.
+Print Assumptions C08_model_holds.
+
+(* ---------------------------------------------------------------- non-vacuity *)
+(* the hypotheses of the transparency and exactness theorems are satisfiable by a non-trivial state: the
+   witness project (one job left, a cache file with two sound entries, one of them stale) *)
+Example C08_example_hypotheses :
+  exists f, Inv ex_fr f fresh /\ ws_intact ex_fr ex_ls ex_lb f /\ file_nodup f /\
+            listing f = [calc_id ex_fr ex_u1] /\
+            cache_file f = Some [(calc_id ex_fr ex_u0, ex_u0); (calc_id ex_fr ex_u1, ex_u1)] /\
+            f9_state f fresh = true.
+Proof.
+  destruct update_cache_exact_refuted as [f0 _].
+  destruct ex_f9_fs_val as [f [Ef [HL HC]]]. exists f.
+  destruct update_cache_exact_refuted as [g [H1 [H2 [H3 _]]]].
+  assert (Hid0 : calc_id ex_fr ex_u0 <> calc_id ex_fr ex_u1) by (vm_compute; discriminate).
+  split; [|split; [|split; [|split; [exact HL|split; [exact HC|]]]]].
+  - split; [apply sound_nil|]. intros c Hc. rewrite HC in Hc. inversion Hc; subst.
+    intros i v [H|[H|[]]]; inversion H; subst; reflexivity.
+  - intros i Hi. rewrite HL in Hi. destruct Hi as [<-|[]].
+    subst f. vm_compute. eexists _, _. repeat split; reflexivity.
+  - intros c Hc. rewrite HC in Hc. inversion Hc; subst. simpl.
+    constructor; [intros [H|[]]; auto|]. constructor; [intros []|constructor].
+  - subst f. vm_compute. reflexivity.
+Qed.
+
+(* collision freedom is satisfiable: on the witness every cached value equals the workspace value *)
+Example C08_example_coll_free :
+  coll_free ex_fr ex_ls ex_f9_fs (map snd (s_cache fresh) ++ file_vals ex_f9_fs).
+Proof.
+  intros i w v Hi Hw Hv Hc.
+  assert (HL : listing ex_f9_fs = [calc_id ex_fr ex_u1]) by (vm_compute; reflexivity).
+  rewrite HL in Hi. destruct Hi as [<-|[]].
+  assert (Ew : wsv ex_ls ex_f9_fs (calc_id ex_fr ex_u1) = Some ex_u1) by (vm_compute; reflexivity).
+  rewrite Ew in Hw. inversion Hw; subst w.
+  assert (HV : map snd (s_cache fresh) ++ file_vals ex_f9_fs = [ex_u0; ex_u1]) by (vm_compute; reflexivity).
+  rewrite HV in Hv. destruct Hv as [<-|[<-|[]]]; [|reflexivity].
+  exfalso. revert Hc. vm_compute. discriminate.
+Qed.
